@@ -327,6 +327,20 @@ ROUND11 = {
     "C18": "every wrapper / erased bridge of Ctxt forwards open_disabled (wrapper-family rule of C03 run here); ExcludeTraceparentProps hides the id keys exactly when `check` is set and incoming_traceparent sets it exactly when it derived a traceparent; Traceparent::is_valid and ActiveTraceparent::is_parent_of are the conjunctions their comments state.",
 }
 
+ROUND12 = {
+    "C02": "no Props::for_each impl constructs a Break of its own (only behind a Break from the visitor or an inner enumeration); every fallible step of the proc-macro crate hands its error on, so duplicate keys are rejected rather than dropped.",
+    "C03": "ThreadLocalCtxt::enter / exit hand the frame to nothing but the swap and never write into it (a frame is the snapshot taken when it was opened).",
+    "C07": "And::blocking_flush is the conjunction of both sides (table of C01); the retry decision's polarity rule runs here too.",
+    "C08": "tokio::wait does not report failure on a path where the notifier was observed to have fired.",
+    "C10": "the retry decision's polarity rule runs here too.",
+    "C11": "a member's name has exactly as many dotted components between prefix and extension as the writer's templates produce (equality, constant read off the templates).",
+    "C12": "the response body is read frame by frame to its end, trailers included; the request body reports its end exactly when prefix and payload were handed over; the retry decision's polarity rule runs here too.",
+    "C13": "an encoder declines an event only on the conditions of its signal's routing contract; the span status follows the level as a table over the four variants.",
+    "C14": "decline conditions as C13; the metric extractor's sequence-flag rule of C13 runs here too.",
+    "C15": "interval analysis of the years-within-century remainder of from_parts: it reaches the every-fourth-year step within [0, 99].",
+    "C01": "And::blocking_flush never grows the timeout it hands to its sides.",
+}
+
 for p in props:
     pid = p["id"]
     if pid in CLAIMS and os.path.exists(os.path.join(VERIF, "rules", pid.lower() + ".py")):
@@ -339,6 +353,8 @@ for p in props:
             text = text.rstrip() + " Round 10: " + ROUND10[pid]
         if pid in ROUND11:
             text = text.rstrip() + " Round 11: " + ROUND11[pid]
+        if pid in ROUND12:
+            text = text.rstrip() + " Round 12: " + ROUND12[pid]
         checks.append({
             "property_id": pid,
             "quick_cmd": "./check %s --tier quick" % pid,
